@@ -54,6 +54,18 @@ class VwScale:
         return x * self.factor
 
 @dataclasses.dataclass
+class VwTwoDepths:
+    """one union of a user class, met at two depths of one graph (PEP 604 spelling)"""
+    one: "VwScale | None" = None
+    many: "list[VwScale | None]" = dataclasses.field(default_factory=list)
+
+@dataclasses.dataclass
+class VwTwoDepthsT:
+    """the same, typing spelling"""
+    one: "typing.Optional[VwScale]" = None
+    many: "typing.List[typing.Optional[VwScale]]" = dataclasses.field(default_factory=list)
+
+@dataclasses.dataclass
 class VwParent:
     name: str
     children: "list[VwChild]" = dataclasses.field(default_factory=list)
@@ -88,6 +100,7 @@ RAW = [
     ("VwG[int]", False), ("VwG", False), ("VwGD[str]", False), ("VwGD", False), ("VwNoAnn", False), ("VwEmpty", False), ("VwTwoVar", False),
     ("tuple[list[vwx.VwXOwner], vwx.VwXOwner]", False), ("dict[str, tuple[vwx.VwXPayee, list[vwx.VwXPayee]]]", False),
     ("typing.Union[list[vwx.VwXPayee], vwx.VwXPayee]", False), ("tuple[vwx.VwXSelf, list[vwx.VwXSelf], vwx.VwXOwner]", False), ("vwx.VwXOwner", False),
+    ("VwTwoDepths", False), ("VwTwoDepthsT", False), ("list[VwScale | None]", False), ("dict[str, VwTwoDepthsT]", False),
     ("VwAnyFields", False), ("VwScale", False), ("list[VwScale]", False), ("VwParent", False), ("VwChild", False), ("VwSelf", False), ("list[VwParent]", False), ("dict[str, VwSelf]", False),
     ("list[typing.Any]", False), ("dict[str, typing.Any]", False), ("tuple[typing.Any, ...]", False), ("list[VwT]", False),
     ("typing.Optional[typing.Any]", False), ("dict[str, object]", False), ("tuple[int, typing.Any]", False), ("list[VwG[int]]", False),
@@ -98,7 +111,7 @@ RAW = [
 PROBES = [None, 1, "a", "1", {"$f": "1.5"}, True, {"$list": [1, "a", None]}, {"$dict": [["a", 1]]}, {"$tuple": [1, 2]}, {"$list": []}, {"$dict": []},
           {"$dict": [["name", "p"], ["children", {"$list": [{"$dict": [["n", 1], ["parent", {"$dict": [["name", "q"], ["children", {"$list": []}]]}]]}]}]]},
           {"$dict": [["v", 1], ["left", {"$dict": [["v", 2], ["left", {"$dict": [["v", 3]]}]]}]]}, {"$dict": [["n", 1], ["parent", {"$dict": [["name", "q"]]}]]},
-          {"$dict": [["factor", "3"]]}, {"$dict": [["x", 1], ["n", 2]]}, {"$dict": [["a", 5], ["b", "y"]]}, {"$list": [{"$list": [1]}]}, {"$b": "6162"}, {"$set": [1]}]
+          {"$dict": [["factor", "3"]]}, {"$dict": [["one", {"$dict": [["factor", 2]]}], ["many", {"$list": [{"$dict": [["factor", 3]]}, None]}]]}, {"$dict": [["x", 1], ["n", 2]]}, {"$dict": [["a", 5], ["b", "y"]]}, {"$list": [{"$list": [1]}]}, {"$b": "6162"}, {"$set": [1]}]
 
 
 class C15(PropBase):
@@ -376,7 +389,7 @@ def _construction_error(exc) -> bool:
     while tb is not None:
         files.append((tb.tb_frame.f_code.co_filename, tb.tb_frame.f_code.co_name))
         tb = tb.tb_next
-    return any(name in ("_marshaller", "_unmarshaller", "marshaller", "unmarshaller", "_get_unmarshaller", "static_order", "get_type_graph", "__missing__", "__init__", "_fields_by_var")
+    return any(name in ("_marshaller", "_unmarshaller", "marshaller", "unmarshaller", "_get_unmarshaller", "static_order", "get_type_graph", "__missing__", "__init__", "_fields_by_var", "evaluate", "_evaluate", "resolved")
                and "typelib" in f for f, name in files[-6:])
 
 
